@@ -297,4 +297,26 @@ func init() {
 		Assumes:    []string{"html.UnescapeString is both executed for the implementation and used as the oracle for the decoded prefix (Go's entity table is the WHATWG table)"},
 		Intrinsics: []string{"safehtmlutil.Indirect / indirectToStringerOrError on the dynamic types string and the safe types", "fmt.Sprint, fmt.Fprintf %%%02x", "regexp MatchString / FindStringSubmatch", "strings.ContainsAny, strings.Fields (concrete)"},
 	})
+
+	reg(&Prop{
+		ID:    "C03",
+		Title: "Safe-type values bypass sanitization only in their own context; attribute values are escaped",
+		Harnesses: []HarnessSpec{
+			{Pkg: "template", Name: "vHarness_C03_matrix", Quick: []ParamRange{{"single", 0, 0}, {"type", 0, 6}, {"ind", 0, 2}, {"ctx", 0, 23}, {"n", 0, 2}},
+				Thorough: []ParamRange{{"single", 0, 1}, {"type", 0, 6}, {"ind", 0, 2}, {"ctx", 0, 23}, {"n", 0, 4}}, Reach: []string{"bypass", "foreign"},
+				Filter: func(p map[string]int) bool { return p["single"] == 0 || p["n"] <= 2 },
+				Desc: "7 safe types x {T, *T, **T} x 24 contexts, contents symbolic: outside the type's own context the chain treats the value exactly like the plain string (same output, same error-or-not); attribute output is HTML-escaped"},
+		},
+		Probes: []ProbeSpec{
+			{Pkg: "template", Name: "vProbe_C03_chain", NArgs: 3, Alphabet: "ab<>\"'&/:?#.javscript 1x,_blank-ltr", MaxLen: 8, N: 4000, Extra: []string{"async", "ltr", "lazy", "_self", "javascript:x", "a\" onmouseover=\"x", "</script>", "/a b", "x 2x, y"}},
+		},
+		Functions: []string{"template.sanitizerForContext", "template.sanitizersForAttributeValue", "template.sanitizerForElementContent", "the sixteen sanitizers of template/sanitizers.go", "safehtmlutil.Stringify", "template.evalArgs",
+			"safehtml.HTMLEscaped", "safehtml.URLSanitized", "safehtml.URLSetSanitized", "uncheckedconversions.*FromStringKnownToSatisfyTypeContract and the raw constructors (to build safe-type values with symbolic contents)"},
+		Bounds: map[string]string{
+			"quick":    "contents: every byte string of length 0..2; 7 types x 3 indirections x 24 context cells, double-quoted attributes",
+			"thorough": "contents 0..4 bytes (single-quoted attributes: 0..2)",
+		},
+		Outside: []string{"fmt.Stringer / error implementations other than the safe types", "pipelines with more than one argument", "user-supplied Funcs", "contents longer than the bound"},
+		Intrinsics: []string{"safehtmlutil.Indirect / indirectToStringerOrError (reflect) modelled on the finite set of dynamic types used", "fmt.Sprint"},
+	})
 }
